@@ -54,6 +54,7 @@ void COSdoReset(CO_SDO *srv, uint8_t num, CO_NODE *node)
     srvnum->Buf.Cur      = &node->SdoBuf[offset];
     srvnum->Buf.Num      = 0;
     srvnum->Seg.TBit     = 0;
+    srvnum->Seg.Dir      = 0;
     srvnum->Seg.Num      = 0;
     srvnum->Seg.Size     = 0;
     srvnum->Blk.State    = BLK_IDLE;
@@ -401,6 +402,7 @@ CO_ERR COSdoInitUploadSegmented(CO_SDO *srv, uint32_t size)
     srv->Seg.Size = size;
     srv->Seg.TBit = 0;
     srv->Seg.Num  = 0;
+    srv->Seg.Dir  = CO_SDO_RD;
 
     return (result);
 }
@@ -413,7 +415,8 @@ CO_ERR COSdoUploadSegmented(CO_SDO *srv)
     uint8_t  c_bit  = 0;
     uint8_t  i;
 
-    if (srv->Obj == 0) {
+    if ((srv->Obj == 0) || (srv->Seg.Dir != CO_SDO_RD)) {
+        /* no segmented upload is running */
         COSdoAbort(srv, CO_SDO_ERR_CMD);
         return (CO_ERR_SDO_ABORT);
     }
@@ -503,6 +506,7 @@ CO_ERR COSdoInitDownloadSegmented(CO_SDO *srv)
         srv->Seg.Size = size;
         srv->Seg.TBit = 0;
         srv->Seg.Num  = 0;
+        srv->Seg.Dir  = CO_SDO_WR;
     }
     return (result);
 }
@@ -516,7 +520,8 @@ CO_ERR COSdoDownloadSegmented(CO_SDO *srv)
     uint8_t  cmd;
     uint8_t  bid;
 
-    if (srv->Obj == 0) {
+    if ((srv->Obj == 0) || (srv->Seg.Dir != CO_SDO_WR)) {
+        /* no segmented download is running */
         COSdoAbort(srv, CO_SDO_ERR_CMD);
         return (CO_ERR_SDO_ABORT);
     }
